@@ -44,20 +44,33 @@ def ties():
     return []
 
 
+def _variants(op: str):
+    return [op + "s", op + "_", op[:-1], op.lower(), op.upper(), "x" + op, op + op, op + "1", "_" + op, op[0].lower() + op[1:]]
+
+
 def _mutate_lookalikes(rng, src: str) -> str:
-    "sprinkle non-operator look-alikes into the text"
+    "sprinkle non-operator look-alikes (names adjacent to the operator names) into the text"
+    import re
+    from func_adl.ast.func_adl_ast_utils import default_list_of_functions as ops
+
     r = rng.random()
-    if r < 0.15:
-        return src.replace(".Select(", ".select(", 1)
-    if r < 0.25:
-        return src.replace(".Where(", ".Filter(", 1)
-    if r < 0.32:
+    if r < 0.35:
+        # rename one or two method-form / function-form operator occurrences to a near-miss name
+        sites = [m for m in re.finditer(r"\b(" + "|".join(ops) + r")\(", src)]
+        for m in rng.sample(sites, min(len(sites), rng.choice([1, 1, 2]))):
+            if m.start() > 0 and src[m.start() - 1] == ".":
+                v = rng.choice(_variants(m.group(1)))
+                src = src[: m.start()] + v + " " * (len(m.group(1)) - len(v)) + src[m.end() - 1 :] if len(v) <= len(m.group(1)) else src[: m.start()] + v + src[m.end() - 1 :]
+                break
+        return src.replace(" (", "(") if False else src
+    if r < 0.42:
         return f"({src}, ds.Select, ds.Where.x, Select)"
-    if r < 0.4:
-        return f"ds.helper({src}, key=ds.Select(lambda q: q.met))"
-    if r < 0.45:
-        return f"ds.Select(lambda q: q.met, extra=1)"
     if r < 0.5:
+        op = rng.choice(ops)
+        return f"ds.helper({src}, key=ds.{op}(lambda q: q.met)).{rng.choice(_variants(op))}(k=ds.jets.{op}())"
+    if r < 0.55:
+        return f"ds.Select(lambda q: q.met, extra=1)"
+    if r < 0.6:
         return f"ds.ResultTTree({src}, 'a', 'b').Max()"
     return src
 
